@@ -13,6 +13,7 @@
 #include "vf.h"
 #include "vf_str.h"
 #include "vf_ref_json.h"
+#include "vf_strtoul.h"
 #include "cJSON.c"
 
 int main(VF_MAIN_ARGS)
